@@ -1,0 +1,126 @@
+//go:build verif
+
+package discovery
+
+import (
+	"context"
+	"sync/atomic"
+	"time"
+
+	"github.com/libp2p/go-libp2p/core/host"
+	"github.com/libp2p/go-libp2p/core/peer"
+	"github.com/libp2p/go-libp2p/p2p/discovery/backoff"
+)
+
+// Verification hooks and accessors, compiled only with the `verif` build tag. They let a harness outside this
+// package (a) drive the unexported limitedSet and backoffConnector directly, (b) reach the ones a Discovery
+// owns, (c) move back-off deadlines into the past instead of waiting, (d) shorten the discovery retry period
+// and (e) observe -- and, by blocking inside the hook, gate -- the one point of limitedSet.Peers that no
+// injected interface exposes: between the emptiness check and the blocking select.
+
+// VerifHook is called at every instrumented point: obj is the *limitedSet, ev the point's name
+// ("peers.empty": Peers found the set empty, released the read lock and is about to block). It may block.
+type VerifHook func(obj any, ev string)
+
+var verifHook atomic.Pointer[VerifHook]
+
+// VerifSetHook installs (or, with nil, removes) the hook.
+func VerifSetHook(h VerifHook) {
+	if h == nil {
+		verifHook.Store(nil)
+		return
+	}
+	verifHook.Store(&h)
+}
+
+func verifEv(obj any, ev string) {
+	if h := verifHook.Load(); h != nil {
+		(*h)(obj, ev)
+	}
+}
+
+// VerifSet gives access to a limitedSet.
+type VerifSet struct{ s *limitedSet }
+
+// VerifNewSet is newLimitedSet.
+func VerifNewSet(limit uint) VerifSet { return VerifSet{newLimitedSet(limit)} }
+
+func (v VerifSet) Raw() any                                     { return v.s }
+func (v VerifSet) Add(p peer.ID) bool                           { return v.s.Add(p) }
+func (v VerifSet) Remove(p peer.ID)                             { v.s.Remove(p) }
+func (v VerifSet) Contains(p peer.ID) bool                      { return v.s.Contains(p) }
+func (v VerifSet) Size() uint                                   { return v.s.Size() }
+func (v VerifSet) Limit() uint                                  { return v.s.Limit() }
+func (v VerifSet) Peers(ctx context.Context) ([]peer.ID, error) { return v.s.Peers(ctx) }
+
+// Snapshot copies the members under the read lock (never blocks, unlike Peers).
+func (v VerifSet) Snapshot() []peer.ID {
+	v.s.lk.RLock()
+	defer v.s.lk.RUnlock()
+	out := make([]peer.ID, 0, len(v.s.ps))
+	for p := range v.s.ps {
+		out = append(out, p)
+	}
+	return out
+}
+
+// VerifConnector gives access to a backoffConnector.
+type VerifConnector struct{ b *backoffConnector }
+
+// VerifNewConnector is newBackoffConnector.
+func VerifNewConnector(h host.Host, f backoff.BackoffFactory) VerifConnector {
+	return VerifConnector{newBackoffConnector(h, f)}
+}
+
+func (v VerifConnector) Connect(ctx context.Context, p peer.AddrInfo) error {
+	return v.b.Connect(ctx, p)
+}
+func (v VerifConnector) Backoff(p peer.ID)         { v.b.Backoff(p) }
+func (v VerifConnector) HasBackoff(p peer.ID) bool { return v.b.HasBackoff(p) }
+func (v VerifConnector) Size() int                 { return v.b.Size() }
+func (v VerifConnector) GC(ctx context.Context)    { v.b.GC(ctx) }
+
+// VerifIsBackoffNotEnded reports whether err is the connector's refusal of a peer in back-off.
+func VerifIsBackoffNotEnded(err error) bool { return err == errBackoffNotEnded }
+
+// Records copies the time of the next permitted attempt of every peer that has a record.
+func (v VerifConnector) Records() map[peer.ID]time.Time {
+	v.b.cacheLk.Lock()
+	defer v.b.cacheLk.Unlock()
+	out := make(map[peer.ID]time.Time, len(v.b.cacheData))
+	for id, d := range v.b.cacheData {
+		out[id] = d.nexttry
+	}
+	return out
+}
+
+// Age moves the deadline of every record into the past by d: the connector then behaves as if d had passed
+// since the records were written (time is read from the wall clock and cannot be injected).
+func (v VerifConnector) Age(d time.Duration) {
+	v.b.cacheLk.Lock()
+	defer v.b.cacheLk.Unlock()
+	for id, rec := range v.b.cacheData {
+		rec.nexttry = rec.nexttry.Add(-d)
+		v.b.cacheData[id] = rec
+	}
+}
+
+// VerifSet returns the Discovery's peer set.
+func (d *Discovery) VerifSet() VerifSet { return VerifSet{d.set} }
+
+// VerifConnector returns the Discovery's connector.
+func (d *Discovery) VerifConnector() VerifConnector { return VerifConnector{d.connector} }
+
+// VerifSetBackoffFactory replaces the back-off factory of the Discovery's connector (call it before Start).
+func (d *Discovery) VerifSetBackoffFactory(f backoff.BackoffFactory) { d.connector.backoff = f }
+
+// VerifTopic is the rendezvous string used for FindPeers/Advertise and as the connection manager's protection tag.
+func (d *Discovery) VerifTopic() string { return d.topic }
+
+// VerifSetRetryTimeout replaces the period of the discovery loop (a package variable read by Start) and returns
+// the previous value. Call it while no Discovery is being started.
+func VerifSetRetryTimeout(t time.Duration) time.Duration {
+	old := discoveryRetryTimeout
+	discoveryRetryTimeout = t
+	return old
+}
